@@ -94,6 +94,13 @@ TARGETS = [
     Target('memcpy_iov', CPP, r'size_t iovector_view::memcpy_iov\(iovector_view d, iovector_view s, size_t size\)', rules=[
         (r'return _copy_pipe_iov\(iov_iterator\(d\), iov_iterator\(s\), size\);',
          '{ struct iov_iterator di_, si_; iovit_ctor(&di_, d); iovit_ctor(&si_, s); return copy_pipe_iov_it_it(&di_, &si_, size); }', 1)]),
+    Target('slice', CPP, r'ssize_t iovector_view::slice\(size_t count, off_t offset, iovector_view\* /\*OUT\*/ iov\) const', rules=[
+        (r'__auto_type it = begin\(\);', 'const struct iovec *it = iovv_cbegin(this);', 1), (r'__auto_type e = end\(\);', 'const struct iovec *e = iovv_cend(this);', 1),
+        (r'\{\s*if \(pos \+ \(off_t\)it->iov_len > offset\)\s*break;', '{ SLA_TOP if (pos + (off_t)it->iov_len > offset) break;', 1),
+        (r'if \(it != e\) \{', 'if (it != e) { S_A = (int)(it - IOV0);', 1),
+        (r'for \(; it != e && cnt < iov->iovcnt; \+\+it\) \{', 'for (; it != e && cnt < iov->iovcnt; ++it) { SLB_TOP', 1)],
+        marks={'count': 2, 0: dict(name='SLA', frame=['it', 'pos'], pure=['PRE_STEP']),
+               1: dict(name='SLB', frame=['it', 'cnt', 'ret', 'count', 'ptr', 'iov', 'OUTS'], pure=['PRE_STEP'], ptr_targets={})}),
 ]
 
 UNITS = {'iov.c': 'iov.c.in'}
@@ -112,6 +119,7 @@ PROOFS = [
     # extract_back(bytes, buf) and memcpy_iov: contracts written (iov.c.in) but no back end finished within 25 min -> not listed
     Proof('extract_front_continuous', 'iov.c', 'h_extract_front_continuous', kind='L', min_obligations=10, **CV),
     Proof('extract_back_continuous', 'iov.c', 'h_extract_back_continuous', kind='L', min_obligations=10, **CV),
+    Proof('slice', 'iov.c', 'h_slice', kind='L', min_obligations=10, **CV),
     Proof('lemma/pre_mono', 'iov.c', 'lemma_pre_mono', kind='L', min_obligations=3, **CV),
 ]
 NATIVES = [Native('native', 'native.cpp', args_quick=[300000], args_thorough=[20000000], timeout=1800, link_photon=True)]
